@@ -339,8 +339,11 @@ static void report(UnitCtx& u, const std::string& key, const std::string& msg, c
 	u.st->add("fail_" + key);
 	if (A.has("dumpkey") && A.get("dumpkey") == key && u.dumped++ < A.geti("dumpmax", 40)) u.st->note("dump " + key + ": " + msg); // debugging aid
 	Found& f = u.found[key];
-	if (f.count++ == 0 || p.size() < f.plen) {
-		f.plen = p.size();
+	// representative of the class: prefer a configuration in which the slot kind is serialised for the version
+	// (an effect shader in an Oblivion model exists only in memory), then the shortest path
+	size_t rank = p.size() + (load_slots(v, g).empty() ? (1u << 20) : 0);
+	if (f.count++ == 0 || rank < f.plen) {
+		f.plen = rank;
 		f.msg = msg;
 		f.cas = case_json(p, v, terrain, g, slot);
 	}
@@ -554,7 +557,7 @@ int main(int argc, char** argv) {
 	g_maxlen = (int) A.geti("maxlen", thorough ? 6 : 5);
 	g_kindlen = (int) A.geti("kindlen", thorough ? 4 : 3);
 	if (g_kindlen > g_maxlen) g_kindlen = g_maxlen;
-	const uint64_t chunk = (uint64_t) A.geti("chunk", 1000);
+	const uint64_t chunk = (uint64_t) A.geti("chunk", 500);
 	const uint64_t kchunk = (uint64_t) A.geti("kchunk", 20);
 	// optional reduced alphabet for the longest length: "--lastalpha 0,1,2,5,6" (token indices)
 	if (A.has("lastalpha")) {
@@ -625,7 +628,7 @@ int main(int argc, char** argv) {
 		return 0;
 	}
 
-	// ---- units, heaviest first
+	// ---- units: the few heavy ones first
 	std::vector<Unit> units;
 	if (with_long) {
 		// members longer than 64 bytes: texture-set slots only, small batches (regex time grows with the length)
@@ -633,13 +636,8 @@ int main(int argc, char** argv) {
 		for (uint64_t a = 0; a < 510; a += 15) units.push_back({'L', a, std::min<uint64_t>(a + 15, 510), true});
 	}
 	for (uint64_t a = 0; a < KS.total(); a += kchunk) units.push_back({'K', a, std::min(a + kchunk, KS.total()), true});
-	// longest strings first (they cost most), so the tail of the run is made of cheap units
-	{
-		std::vector<Unit> t;
-		for (uint64_t a = 0; a < TS.total(); a += chunk) t.push_back({'T', a, std::min(a + chunk, TS.total()), false});
-		std::reverse(t.begin(), t.end());
-		units.insert(units.end(), t.begin(), t.end());
-	}
+	// shortest strings first: if the deadline cuts the run, what is lost is the tail of the longest strings
+	for (uint64_t a = 0; a < TS.total(); a += chunk) units.push_back({'T', a, std::min(a + chunk, TS.total()), false});
 
 	auto unit_fn = [&](size_t u, const std::vector<std::string>& skips, long, Stats& st) {
 		const Unit& un = units[u];
